@@ -1,2 +1,374 @@
-// Package c05 binds the TLA+ specification of property C05 to the Go code.
+// Package c05 binds spec/arpa (Arpa.tla, ArpaNames.tla, ArpaTrace.tla) to
+// netutil.PrefixFromReversedAddr and netutil.ExtractReversedAddr.
 package c05
+
+import (
+	"encoding/json"
+	"fmt"
+	"math/rand/v2"
+	"net"
+	"net/netip"
+	"strconv"
+	"strings"
+
+	"github.com/AdguardTeam/golibs/netutil"
+
+	"verifharness/internal/c04"
+	"verifharness/internal/vh"
+)
+
+func init() {
+	vh.Register("c05", "replay-names", replayNames)
+	vh.Register("c05", "record", record)
+	vh.Register("c05", "probe", probe)
+}
+
+const (
+	fnPrefix  = "PrefixFromReversedAddr"
+	fnExtract = "ExtractReversedAddr"
+)
+
+// call runs one of the two functions under recover.
+func call(fn, s string) (r c04.Res, err error, pv any, panicked bool) {
+	pv, panicked = vh.Try(func() {
+		var p netip.Prefix
+		if fn == fnPrefix {
+			p, err = netutil.PrefixFromReversedAddr(s)
+		} else {
+			p, err = netutil.ExtractReversedAddr(s)
+		}
+		r = c04.ResOfPrefix(p, err)
+	})
+	return r, err, pv, panicked
+}
+
+// domainOK is the reference for "valid domain name" (after the one optional
+// trailing dot is removed, as all three ARPA functions do).
+func domainOK(s string) (ok bool) {
+	_, p := vh.Try(func() { ok = netutil.ValidateDomainName(strings.TrimSuffix(s, ".")) == nil })
+	return ok && !p
+}
+
+// prefixName is the canonical ARPA name of a prefix whose length is a
+// multiple of 8 (IPv4) / 4 (IPv6), built with the real encoder: the full
+// name of the address without its first (host) labels.
+func prefixName(p netip.Prefix) (name string, ok bool) {
+	a := p.Addr()
+	if a.Is4In6() {
+		// IPToReversedAddr would spell the IPv4 name; spell the nibbles here.
+		return "", false
+	}
+	var full string
+	var err error
+	if _, pn := vh.Try(func() { full, err = netutil.IPToReversedAddr(net.IP(a.AsSlice())) }); pn || err != nil {
+		return "", false
+	}
+	labels := strings.Split(full, ".")
+	per, total := 4, 32
+	if a.Is4() {
+		per, total = 8, 4
+	}
+	if p.Bits()%per != 0 || len(labels) != total+2 {
+		return "", false
+	}
+	return strings.Join(labels[total-p.Bits()/per:], "."), true
+}
+
+// judge runs one of the two functions on s and judges the observation:
+// against the predicted result when want is non-nil, and always against
+// totality, the documented error type and the statement's own relations
+// (host bits zero; the canonical name of the returned prefix is the name, for
+// extraction a label-aligned suffix of it; extraction = prefix decoding of
+// the longest accepted suffix of a valid domain name).  what is empty when
+// the call conformed.
+func judge(fn, s string, want *c04.Res) (what string, d c04.Detail) {
+	got, err, pv, panicked := call(fn, s)
+	d = c04.Detail{Func: fn, Input: s, Got: got}
+	if want != nil {
+		d.Want = *want
+	}
+	if err != nil {
+		d.Err = err.Error()
+	}
+	switch {
+	case panicked:
+		d.Panic = fmt.Sprint(pv)
+		return fmt.Sprintf("panic: %v", pv), d
+	case want != nil && !got.Equal(*want):
+		return fmt.Sprintf("returned %v, the specification predicts %v", got, *want), d
+	case err != nil && !c04.AddrErrorOK(err):
+		return fmt.Sprintf("rejected with an error of type %T, documented: *netutil.AddrError", err), d
+	}
+	canon := c04.CanonString(s)
+	if got.Ok {
+		p, ok := got.Prefix()
+		if !ok || !p.IsValid() {
+			return "accepted but returned an invalid prefix", d
+		}
+		if p.Masked() != p {
+			return fmt.Sprintf("returned %v with non-zero host bits", p), d
+		}
+		if pn, ok := prefixName(p); ok {
+			if fn == fnPrefix && pn != canon {
+				d.Note = "canonical name of the result: " + pn
+				return "accepted a name that is not the canonical name of the returned prefix", d
+			}
+			if fn == fnExtract && pn != canon && !strings.HasSuffix(canon, "."+pn) {
+				d.Note = "canonical name of the result: " + pn
+				return "the canonical name of the returned prefix is not a label-aligned suffix of the domain", d
+			}
+		}
+	}
+	if fn != fnExtract || want != nil {
+		// With a predicted result the specification is the oracle; the relation
+		// below would blame ExtractReversedAddr for a PrefixFromReversedAddr bug.
+		return "", d
+	}
+	rel := c04.None()
+	if domainOK(s) {
+		t := strings.TrimSuffix(s, ".")
+		for {
+			r, _, _, p := call(fnPrefix, t)
+			if !p && r.Ok {
+				rel = r
+				break
+			}
+			i := strings.IndexByte(t, '.')
+			if i < 0 {
+				break
+			}
+			t = t[i+1:]
+		}
+	}
+	if !got.Equal(rel) {
+		d.Note = fmt.Sprintf("PrefixFromReversedAddr over the label-aligned suffixes gives %v", rel)
+		return fmt.Sprintf("returned %v, but PrefixFromReversedAddr of the longest label-aligned suffix it accepts gives %v (one of the two violates C05)", got, rel), d
+	}
+	return "", d
+}
+
+// check judges one call against the predicted result and records a mismatch.
+func check(res *vh.Result, fn, s string, want c04.Res) bool {
+	what, d := judge(fn, s, &want)
+	if what != "" {
+		res.Mismatch(c04.Key(fn, s), what, d)
+	}
+	return what == ""
+}
+
+// ------------------------------------------------------------ replay
+
+func replayNames(args []string) error {
+	if len(args) != 2 {
+		return fmt.Errorf("usage: replay-names <vectors> <result>")
+	}
+	res, err := vh.NewResult(args[1])
+	if err != nil {
+		return err
+	}
+	n, accP, accE, domBad := 0, 0, 0, 0
+	var specBugs []string
+	dd := vh.NewDedup()
+	err = vh.ForEachVector(args[0], func(_ int, raw []byte) error {
+		var v c04.NameVec
+		if err := json.Unmarshal(raw, &v); err != nil {
+			return err
+		}
+		if len(v.Name) == 0 {
+			return fmt.Errorf("vector without a name: %s", raw)
+		}
+		s := c04.Concretise(v.Name)
+		n++
+		if !dd.Add([]byte(s)) {
+			return nil
+		}
+		dom := domainOK(s)
+		if !dom {
+			domBad++
+		}
+		// The reference decides domain validity; the model in Arpa.tla is a
+		// third voice for ASCII names and must agree with it.
+		if v.ASCII && c04.IsASCII(s) && v.Dom != dom && len(specBugs) < 5 {
+			specBugs = append(specBugs, fmt.Sprintf("DomainOK(%q) = %v in Arpa.tla, ValidateDomainName says %v", s, v.Dom, dom))
+		}
+		wantExt := v.Ext
+		if !dom {
+			wantExt = c04.None()
+		}
+		if v.Pfx.Ok {
+			accP++
+		}
+		if wantExt.Ok {
+			accE++
+		}
+		if dd.N()%20011 == 1 {
+			res.Sample(map[string]any{"name": s, fnPrefix: v.Pfx.String(), fnExtract: wantExt.String()})
+		}
+		check(res, fnPrefix, s, v.Pfx)
+		check(res, fnExtract, s, wantExt)
+		return nil
+	})
+	if err != nil {
+		return err
+	}
+	if err := res.Close(map[string]any{"vectors": n, "calls": 2 * dd.N(), "distinct_nontrivial": dd.N(),
+		"predicted_prefix_accepts": accP, "predicted_extract_accepts": accE, "invalid_domains": domBad}); err != nil {
+		return err
+	}
+	if len(specBugs) > 0 {
+		return fmt.Errorf("specification bug (domain-name model disagrees with the reference): %s", strings.Join(specBugs, "; "))
+	}
+	return nil
+}
+
+// ------------------------------------------------------------ record (binding T)
+
+// randPrefix draws a prefix whose length is a label multiple, biased to the
+// ends of the range.
+func randPrefix(rng *rand.Rand) netip.Prefix {
+	ip := c04.RandAddr(rng)
+	a, _ := netip.AddrFromSlice(ip)
+	if ip.To4() != nil {
+		a = a.Unmap()
+		k := rng.IntN(5)
+		p, _ := a.Prefix(8 * k)
+		return p
+	}
+	k := rng.IntN(33)
+	if rng.IntN(3) == 0 {
+		k = []int{0, 1, 2, 30, 31, 32}[rng.IntN(6)]
+	}
+	p, _ := a.Prefix(4 * k)
+	return p
+}
+
+var junkLeads = []string{"x-y", "_srv", "host", "1-", "-a", "xn--9ca", "00a"}
+
+func record(args []string) error {
+	if len(args) != 4 {
+		return fmt.Errorf("usage: record <trace-out> <result> <cases> <logged>")
+	}
+	total, _ := strconv.Atoi(args[2])
+	logged, _ := strconv.Atoi(args[3])
+	if total <= 0 || logged <= 0 {
+		return fmt.Errorf("bad counts %q %q", args[2], args[3])
+	}
+	tr, err := vh.NewTrace(args[0])
+	if err != nil {
+		return err
+	}
+	res, err := vh.NewResult(args[1])
+	if err != nil {
+		return err
+	}
+	rng := vh.Rand(5)
+	stride := total / logged
+	if stride < 1 {
+		stride = 1
+	}
+	calls, accP, accE := 0, 0, 0
+	dd := vh.NewDedup()
+	for i := 0; i < total; i++ {
+		log := i%stride == 0
+		p := randPrefix(rng)
+		name, ok := prefixName(p)
+		if !ok {
+			continue
+		}
+		bs := []int{}
+		for _, b := range p.Addr().AsSlice() {
+			bs = append(bs, int(b))
+		}
+		want := c04.Res{Ok: true, Fam: 6, Bytes: bs, Bits: p.Bits()}
+		if p.Addr().Is4() {
+			want.Fam = 4
+		}
+		// The identity itself: the name of a prefix decodes to the prefix, in
+		// any spelling, on its own and below labels that cannot belong to it.
+		spell := name
+		if rng.IntN(2) == 0 {
+			spell = c04.FlipCase(rng, spell)
+		}
+		if rng.IntN(2) == 0 {
+			spell += "."
+		}
+		dd.Add([]byte(spell))
+		calls += 3
+		below := junkLeads[rng.IntN(len(junkLeads))] + "." + spell
+		allOK := true
+		for _, c := range []struct{ fn, in string }{{fnPrefix, spell}, {fnExtract, spell}, {fnExtract, below}} {
+			fn := c.fn
+			if what, d := judge(fn, c.in, &want); what != "" {
+				allOK = false
+				d.Note = strings.TrimSpace(d.Note + " name of " + p.String())
+				c04.ReportShrunk(res, fn, c.in, what, d, func(x string) (string, c04.Detail) { return judge(fn, x, nil) })
+			}
+		}
+		if log && allOK {
+			tr.Emit(c04.EventOf("pfx", spell, true, want))
+			tr.Emit(c04.EventOf("ext", spell, true, want))
+			tr.Emit(c04.EventOf("ext", below, domainOK(below), want))
+		}
+		// Random edits, one to three, cumulative.
+		s := spell
+		if rng.IntN(4) == 0 {
+			s = below
+		}
+		for k := 1 + rng.IntN(3); k > 0; k-- {
+			s = c04.Edit(rng, s)
+		}
+		if len(s) > 300 {
+			continue
+		}
+		dd.Add([]byte(s))
+		dom := domainOK(s)
+		for _, fn := range []string{fnPrefix, fnExtract} {
+			calls++
+			what, d := judge(fn, s, nil)
+			if what != "" {
+				c04.ReportShrunk(res, fn, s, what, d, func(x string) (string, c04.Detail) { return judge(fn, x, nil) })
+				continue
+			}
+			op := "pfx"
+			if d.Got.Ok && fn == fnPrefix {
+				accP++
+			}
+			if fn == fnExtract {
+				op = "ext"
+				if d.Got.Ok {
+					accE++
+				}
+			}
+			if log {
+				tr.Emit(c04.EventOf(op, s, dom, d.Got))
+			}
+		}
+	}
+	if err := tr.Close(); err != nil {
+		return err
+	}
+	return res.Close(map[string]any{"cases": total, "calls": calls, "events": tr.N,
+		"edited_prefix_accepts": accP, "edited_extract_accepts": accE, "distinct_nontrivial": dd.N()})
+}
+
+// ------------------------------------------------------------ probe (--replay)
+
+func probe(args []string) error {
+	if len(args) != 2 {
+		return fmt.Errorf("usage: probe <func> <input>")
+	}
+	if args[0] != fnPrefix && args[0] != fnExtract {
+		return fmt.Errorf("unknown function %q", args[0])
+	}
+	r, err, pv, p := call(args[0], args[1])
+	out := map[string]any{"func": args[0], "input": args[1], "got": r, "domain_valid": domainOK(args[1])}
+	if err != nil {
+		out["err"] = err.Error()
+	}
+	if p {
+		out["panic"] = fmt.Sprint(pv)
+	}
+	b, _ := json.Marshal(out)
+	fmt.Println(string(b))
+	return nil
+}
